@@ -57,6 +57,9 @@ impl Otaa {
             &DefaultCrypto::new(self.network_credentials.appkey.inner()),
         ) {
             region.process_join_accept(decrypt.c_f_list().as_ref());
+            // The JoinAccept carries no RX2 frequency: a new session starts on the regional
+            // default, not on what a RXParamSetupReq of the previous session negotiated.
+            configuration.rx2_frequency = None;
             configuration.rx1_delay = del_to_delay_ms(decrypt.rx_delay());
             let dl_settings = decrypt.dl_settings();
             if let Some(rx1_dr_offset) = region.rx1_dr_offset_validate(dl_settings.rx1_dr_offset())
